@@ -30,6 +30,9 @@ type Case struct {
 	Seed  int      `json:"seed"`
 	Extra bool     `json:"extra"` // a second vlen dataset shares the file (collections interleave)
 	After bool     `json:"after"` // a plain dataset is created and written after the vlen writes (heap collections must not reach into it)
+	// Grow != 0 (one-dimensional chunked datasets): /v is created resizable, and after the first write resized to its length
+	// + Grow and written again with a list of the new length
+	Grow int `json:"grow,omitempty"`
 }
 
 var elemSize = map[string]int{"str": 1, "i32": 4, "i64": 8, "u32": 4, "u64": 8, "f32": 4, "f64": 8}
@@ -52,6 +55,12 @@ func gen(t *rapid.T) Case {
 			c.Chunk = append(c.Chunk, uint64(rapid.IntRange(1, int(e)).Draw(t, "chunk")))
 		}
 	}
+	if c.Chunk != nil && len(c.Dims) == 1 && rapid.IntRange(0, 2).Draw(t, "resized") == 0 {
+		c.Grow = rapid.SampledFrom([]int{1, 2, 5, 40, -1, -3}).Draw(t, "grow")
+		if int(c.Dims[0])+c.Grow < 1 {
+			c.Grow = 1
+		}
+	}
 	es := elemSize[c.Type]
 	special := []int{0, 1, 7, 8, 9, 15, 16, 17}
 	big := []int{4063, 4064, 4065, 4072, 4079, 4080, 4081, 8192, 65537, 70001}
@@ -59,6 +68,17 @@ func gen(t *rapid.T) Case {
 	for i := 0; i < k; i++ {
 		l := rapid.OneOf(rapid.SampledFrom(special), rapid.IntRange(0, 64), rapid.IntRange(0, 600), rapid.SampledFrom(big)).Draw(t, "len")
 		c.Lens = append(c.Lens, l/es)
+	}
+	if rapid.IntRange(0, 99).Draw(t, "slack") == 0 {
+		// an element that leaves a freshly enlarged collection almost empty, followed by more empty elements than a
+		// minimum-size collection could ever hold
+		first := rapid.SampledFrom([]int{4057, 4064, 4072, 4080, 8152, 8160, 12248}).Draw(t, "slackFirst") / es
+		n := rapid.IntRange(257, 300).Draw(t, "slackN")
+		c.Dims, c.Chunk, c.Grow = []uint64{uint64(n)}, nil, 0
+		c.Lens = append([]int{first}, make([]int, n-1)...)
+		if rapid.Bool().Draw(t, "slackLead") {
+			c.Lens = append([]int{3, 1}, c.Lens[:n-2]...) // not the first object of the file's first collection
+		}
 	}
 	if rapid.IntRange(0, 199).Draw(t, "manyObjects") == 0 {
 		// more heap objects in one session than a 16-bit object index can number within one collection sequence
@@ -115,6 +135,9 @@ func classify(c Case) (bool, []string) {
 	}
 	if n > 65535 {
 		labels = append(labels, "n>65535")
+	}
+	if c.Grow != 0 {
+		labels = append(labels, "resized_and_rewritten")
 	}
 	return vol > 4096 || huge || empty, labels
 }
@@ -252,7 +275,11 @@ func run(c Case) vt.Verdict {
 		paths = append(paths, "/w")
 	}
 	var handles []*hdf5.DatasetWriter
-	for _, p := range paths {
+	for k, p := range paths {
+		opts := opts
+		if k == 0 && c.Grow != 0 && c.Chunk != nil && len(c.Dims) == 1 {
+			opts = append(append([]hdf5.DatasetOption{}, opts...), hdf5.WithMaxDims([]uint64{hdf5.Unlimited}))
+		}
 		ds, err := fw.CreateDataset(p, dtypes[c.Type], c.Dims, opts...)
 		if err != nil {
 			return vt.Bad("CreateDataset(%s, vlen %s, dims %v, chunk %v): %v", p, c.Type, c.Dims, c.Chunk, err)
@@ -267,7 +294,23 @@ func run(c Case) vt.Verdict {
 		hist.Scribble(v) // the caller refills its buffers for the next dataset; "want" holds separate copies
 		all = append(all, dsInfo{p, want})
 	}
+	var grown []uint64
+	if c.Grow != 0 && c.Chunk != nil && len(c.Dims) == 1 && int(c.Dims[0])+c.Grow >= 1 {
+		c2 := c
+		c2.Dims = []uint64{uint64(int(c.Dims[0]) + c.Grow)}
+		if err := handles[0].Resize(append([]uint64{}, c2.Dims...)); err != nil {
+			return vt.Bad("Resize of the resizable vlen dataset /v from %v to %v: %v", c.Dims, c2.Dims, err)
+		}
+		v, want := values(c2, 104729)
+		if err := handles[0].Write(v); err != nil {
+			return vt.Bad("Write of %d vlen %s elements to /v after Resize %v -> %v: %v", len(want), c.Type, c.Dims, c2.Dims, err)
+		}
+		hist.Scribble(v)
+		all[0].want = want
+		grown = c2.Dims
+	}
 	var afterWant []float64
+	_ = grown
 	if c.After {
 		// an ordinary dataset allocated and written after the heap collections were sized
 		zn := 600
@@ -340,8 +383,12 @@ func run(c Case) vt.Verdict {
 				return vt.Bad("%s: stored vlen base type %+v, written vlen of %s", di.path, t.Base, c.Type)
 			}
 		}
-		if fmt.Sprint(o.Dims) != fmt.Sprint(c.Dims) {
-			return vt.Bad("%s: stored dims %v, created %v", di.path, o.Dims, c.Dims)
+		wantDims := c.Dims
+		if di.path == "/v" && grown != nil {
+			wantDims = grown
+		}
+		if fmt.Sprint(o.Dims) != fmt.Sprint(wantDims) {
+			return vt.Bad("%s: stored dims %v, created/resized to %v", di.path, o.Dims, wantDims)
 		}
 		if o.RawErr != "" {
 			return vt.Bad("%s: element references cannot be assembled: %s", di.path, o.RawErr)
@@ -405,6 +452,25 @@ func run(c Case) vt.Verdict {
 				return vt.Bad("%s element %d: the library's heap reader returns %d bytes, written %d (first diff %d)", di.path, i, len(obj.Data), len(di.want[i]), firstDiff(obj.Data, di.want[i]))
 			}
 			kept = append(kept, obj.Data)
+		}
+		// the same parsed collections asked again, last element first: what an object index resolves to does not depend on
+		// which objects were asked for before
+		for i := n - 1; i >= 0 && i >= n-400; i-- {
+			ref, err := core.ParseGlobalHeapReference(o.Raw[i*16:(i+1)*16], 8)
+			if err != nil {
+				continue
+			}
+			col := cache[ref.HeapAddress]
+			if col == nil {
+				continue
+			}
+			obj, err := col.GetObject(ref.ObjectIndex)
+			if err != nil {
+				return vt.Bad("%s element %d, asked again in reverse order: GetObject(%d) in collection %#x: %v", di.path, i, ref.ObjectIndex, ref.HeapAddress, err)
+			}
+			if !bytes.Equal(obj.Data, di.want[i]) {
+				return vt.Bad("%s element %d, asked again in reverse order: %d bytes, written %d (first diff %d)", di.path, i, len(obj.Data), len(di.want[i]), firstDiff(obj.Data, di.want[i]))
+			}
 		}
 		// a caller collects the elements first and uses them afterwards: reading further collections (also uncached, a second
 		// time) must leave the bytes already handed out alone
